@@ -522,7 +522,16 @@ func c06R4(c *Ctx, r *Report) {
 				}
 				problems = append(problems, fmt.Sprintf("the included file's origin may be %v", e))
 			}
-			if len(callsIn(nx, "(ZoneParser).SetIncludeFS")) != 1 || !anyIn(sliceOf(callsIn(nx, "(ZoneParser).SetIncludeFS")[0].Common().Args[1]), readsField("ZoneParser", "fsys")) {
+			okFS := len(callsIn(nx, "(ZoneParser).SetIncludeFS")) == 1 && anyIn(sliceOf(callsIn(nx, "(ZoneParser).SetIncludeFS")[0].Common().Args[1]), readsField("ZoneParser", "fsys"))
+			if !okFS {
+				// the setter written out in place: sub.fsys = zp.fsys
+				for _, st := range storesToField(nx, "ZoneParser", "fsys") {
+					if fa, ok := st.Addr.(*ssa.FieldAddr); ok && fa.X != nx.Params[0] && anyIn(sliceOf(st.Val), fieldPathOf(isValue(nx.Params[0]), "fsys")) {
+						okFS = true
+					}
+				}
+			}
+			if !okFS {
 				problems = append(problems, "the include file system is not inherited")
 			}
 			okTtl := false
